@@ -334,7 +334,7 @@ def check_legality_matrix(ctx):
     chain_fn = f
     for fn_ in [x for x in m.all_functions(include_typeguard=False) if x.module.short == "_array_types"]:
         for x in ast.walk(fn_.node):
-            if isinstance(x, ast.If) and isinstance(x.test, ast.Compare) and norm(x.test.left) == "dim_type" and isinstance(x.test.ops[0], ast.Is) and "_DimType" in norm(x.test):
+            if isinstance(x, ast.If) and isinstance(x.test, ast.Compare) and norm(x.test.left) == "dim_type" and isinstance(x.test.ops[0], (ast.Is, ast.Eq)) and "_DimType" in norm(x.test):
                 chains.append(x)
                 chain_fn = fn_
     tops = [c for c in chains if not any(c in p.orelse for p in chains)]
